@@ -431,10 +431,22 @@ pub fn run(ctx: &mut Ctx) {
     hist.push(vec![d(0), d(3), d(3), d(3), d(0), r(0), Op::Close]); // dead port: socket error
     hist.push(vec![d(0), a(t / 4), a(t / 4), a(t / 4), a(t / 4), d(1), a(1), a(t / 4), r(0), d(0), Op::Close]);
     hist.push(vec![d(0), a(t - 1), d(0), a(t - 1), r(0), a(t - 1), a(t / 4), a(2), Op::Close]);
+    // the direct path carries replies up to the maximal IPv4 UDP payload (the SOCKS relay's header leaves room for less)
+    for len in 65498usize..=65507 {
+        hist.push(vec![d(0), Op::Reply(0, len), Op::Reply(0, 65497), d(0), Op::Reply(0, len), Op::Close]);
+    }
     let n_random = if ctx.thorough() { 1500 } else { 150 };
     for _ in 0..n_random {
         let n = ctx.rng.range(3, 14) as usize;
-        hist.push(gen_ops(&mut ctx.rng, nflows, t, n));
+        let mut ops = gen_ops(&mut ctx.rng, nflows, t, n);
+        for o in ops.iter_mut() {
+            if let Op::Reply(_, l) = o {
+                if *l >= 65000 && ctx.rng.chance(1, 2) {
+                    *l = 65498 + ctx.rng.below(10) as usize;
+                }
+            }
+        }
+        hist.push(ops);
     }
     for ops in hist {
         for o in &ops {
